@@ -82,8 +82,8 @@ CLAIMED["C06"] = dict(
     technique="polynomial identities over Z/2^32 on the extracted unsigned instantiation (cbmc + z3 som) and relational / IEEE lemma harnesses (cvc5)",
     ref="6/C06, 10.3")
 CLAIMED["C14"] = dict(
-    text="Proof for three clauses: intersects(box, ray, ip) and findEntryAndExitPoints return false for every empty box; when the ray origin lies in a non-empty box intersects returns true with ip == origin (dfcc-enforced contracts with exact frames, arithmetic uninterpreted since only comparisons and copies matter); intersects(box, ray) is the boolean of the three-argument form for all finite inputs (IEEE, cvc5); findEntryAndExitPoints and intersects(box, ray, ip) return the same answer when box and line are cyclically relabelled x<-y<-z (arithmetic uninterpreted): the three hand-copied per-axis blocks agree with each other; whenever intersects(box, ray, ip) is true, ip lies in the closed box, for every finite box, origin and direction incl. zero, denormal and huge components (IEEE arithmetic, kissat).",
-    note="Trusted: clang AST + cxx2c (differentially validated), cbmc, cvc5, minisat. The geometric core of the property (exact truth value, points on the ray, first point of contact, entry / exit points in the box) is NOT decided.",
+    text="Proof for three clauses: intersects(box, ray, ip) and findEntryAndExitPoints return false for every empty box; when the ray origin lies in a non-empty box intersects returns true with ip == origin (dfcc-enforced contracts with exact frames, arithmetic uninterpreted since only comparisons and copies matter); intersects(box, ray) is the boolean of the three-argument form for all finite inputs (IEEE, cvc5); findEntryAndExitPoints and intersects(box, ray, ip) return the same answer when box and line are cyclically relabelled x<-y<-z (arithmetic uninterpreted): the three hand-copied per-axis blocks agree with each other; whenever intersects(box, ray, ip) is true, ip lies in the closed box, for every finite box, origin and direction incl. zero, denormal and huge components (IEEE arithmetic, kissat); thorough tier: whenever findEntryAndExitPoints is true, entry and exit lie in the closed box, for unit directions and coordinates of magnitude <= 1e37 (for a zero / very short direction or a box reaching +-FLT_MAX the function returns true without setting them).",
+    note="Trusted: clang AST + cxx2c (differentially validated), cbmc, cvc5, minisat. The geometric core of the property (exact truth value, points on the ray, first point of contact) is NOT decided.",
     technique="CBMC function contracts (dfcc) on extracted C + relational lemma harnesses (wrapper, axis relabelling), SAT / kissat / cvc5",
     ref="6/C14, 10.3")
 
